@@ -478,6 +478,10 @@ func (g *vfGW) validatorFn(vc vfValCfg) ValidatorEx {
 		inv := &vfValInv{val: vc.Name, msg: label, gate: make(chan ValidationResult, 1), from: vfName(from)}
 		g.valPend = append(g.valPend, inv)
 		g.vmu.Unlock()
+		if g.cfg.Extra["validators_ignore_ctx"] != "" {
+			// a validator that does not watch its context (legal, if impolite): only the explorer ends it
+			return <-inv.gate
+		}
 		select {
 		case r := <-inv.gate:
 			return r
@@ -1190,6 +1194,28 @@ func (g *vfGW) finish() {
 	}
 	g.ymu.Unlock()
 	defer func() { verifHooks.yield = nil }()
+	if g.cfg.Extra["validators_ignore_ctx"] != "" {
+		// validators that ignore their context are ended by hand, after the cancellation, until none is left (a
+		// worker may pick up one more queued message before it notices the cancellation)
+		g.n.cancel()
+		synctest.Wait()
+		for round := 0; round < 8; round++ {
+			n := 0
+			g.vmu.Lock()
+			for _, inv := range g.valPend {
+				if inv.gate != nil {
+					inv.gate <- ValidationIgnore
+					inv.gate = nil
+					n++
+				}
+			}
+			g.vmu.Unlock()
+			synctest.Wait()
+			if n == 0 {
+				break
+			}
+		}
+	}
 	vfTeardown(g.w, g.n)
 	if left := vfLeftovers(); len(left) > 0 {
 		g.x.r.count("hygiene_leftover_goroutines", int64(len(left)))
